@@ -256,6 +256,83 @@ plan('C04', jobs=_c04, level='fault_enumeration',
      design_ref='DESIGN.md section 3, C04')
 
 
+def _c08(tier):
+    jobs = [
+        J('C08', 'dbg/u4', 'dbg', 'eng_algebra', '--universe 4 --random %d' % q(tier, 3000, 60000), 8, 1, exh=True),
+        J('C08', 'rel/u4', 'rel', 'eng_algebra', '--universe 4 --random %d' % q(tier, 9000, 300000), 8, 1, exh=True),
+    ]
+    if tier == 'thorough':
+        jobs += [
+            J('C08', 'rel/u5', 'rel', 'eng_algebra', '--universe 5', 16, 1, exh=True, timeout=3600),
+            J('C08', 'miri/u3', 'miri', 'eng_algebra', '--tiny', 16, 1, light=True, timeout=7200),
+        ]
+    return jobs
+
+
+plan('C08', jobs=_c08,
+     rule='A case is one operation (union, intersection, difference, symmetric_difference walked at EVERY consumption prefix with size_hint / count / fold / Debug probes on clones; difference_ref; `&a - &b`; is_subset / is_superset / is_disjoint) on one ordered pair of sets (A, B). Pairs: ALL ordered arrangements of all subsets of a 4-class universe for both operands (65 x 65 layouts when both capacities are >= 4) for the capacity pairs (4,4) (4,8) (8,4) (0,0) (0,4) (4,0) (1,2) (2,1) (2,4) (4,2) (3,3) (5,4); thorough adds the 5-class universe (326 x 326) for (5,5) and (5,8); random pairs for capacities up to 32 on top. A pair is non-trivial when at least one operand is non-empty; distinct pairs are counted by (N, M, both slot orders).',
+     required=['union', 'intersection', 'difference', 'symmetric_difference', 'difference_ref', 'sub', 'is_subset:true', 'is_subset:false',
+               'is_superset:true', 'is_superset:false', 'is_disjoint:true', 'is_disjoint:false', 'random-pair'],
+     exhaustive_subspace='all ordered layout pairs over a 4-class universe (thorough: 5-class) for the listed capacity pairs, every consumption prefix of every lazy iterator',
+     title='set algebra',
+     technique='runtime monitoring: list-level oracle (yielded list vs mathematical result, so repeats are visible), per-prefix size_hint/count/fold/fusedness probes on iterator clones, address/identity monitor for the yielded references, operand fingerprints before/after; bounded-exhaustive pair space',
+     level_text='Exploration with an exhaustive sub-space: every ordered pair of slot layouts over a small universe is run through every set-algebra operation; yielded lists are compared with the mathematical result, every consumption prefix is probed (size_hint brackets, count, fold = stepping, None after the end, Debug lists the remainder), yielded references must be the left operand\'s own elements (intersection, difference) at addresses inside the operand, predicates must equal their truth value and operands must be unchanged.',
+     level_note='Universe of 4 (thorough 5) classes is exhaustive; larger sets are sampled. Trusted: the list arithmetic in the oracle.',
+     design_ref='DESIGN.md section 3, C08')
+
+
+def _c13(tier):
+    jobs = [
+        J('C13', 'dbg/u4', 'dbg', 'eng_disjoint', '--random %d' % q(tier, 4000, 200000), 8, 1, exh=True),
+        J('C13', 'rel/u4', 'rel', 'eng_disjoint', '--random %d' % q(tier, 8000, 1000000), 8, 1, exh=True),
+        J('C13', 'miri/u3', 'miri', 'eng_disjoint', '--tiny --maxj %d' % q(tier, 2, 3), 16, 1, light=True, timeout=q(tier, 1500, 7200), exh=(tier == 'thorough')),
+    ]
+    if tier == 'thorough':
+        jobs.append(J('C13', 'asan/u4', 'asan', 'eng_disjoint', '--random 200000', 8, 1))
+    return jobs
+
+
+plan('C13', jobs=_c13,
+     rule='A case is one call of get_disjoint_mut with one key tuple on one map state. States: ALL ordered arrangements of all subsets of a 4-class universe that fit N, for N in {0,1,2,3,4,8}. Tuples: ALL tuples of length J = 0..=4 over the five keys {1,2,3,4, an always-absent key} (present and absent keys, with and without repeats, every order), each given once in the borrowed form and once as keys; random maps with N in {8,16} and tuples of length 5 and 8 on top. Under Miri: 3-class universe, N in {0,2,3}, J <= 2 (quick) / J <= 3 (thorough). Non-trivial: J >= 1; distinct by (N, slot order, tuple, form).',
+     required=['get_disjoint_mut(q):J=0', 'get_disjoint_mut(q):J=1', 'get_disjoint_mut(q):J=2:ok', 'get_disjoint_mut(q):J=2:panic', 'get_disjoint_mut(q):J=3:ok',
+               'get_disjoint_mut(q):J=4:ok', 'get_disjoint_mut(q):J=4:panic', 'get_disjoint_mut(k):J=3:ok', 'get_disjoint_mut(k):J=4:panic', 'get_disjoint_mut(q):J=8', 'random-long-tuple'],
+     exhaustive_subspace='all slot layouts over a 4-class universe for N in {0,1,2,3,4,8} x all key tuples of length 0..=4 over 5 keys x {borrowed form, key}',
+     assumptions=NATIVE_ASSUME + SAN_ASSUME,
+     title='get_disjoint_mut',
+     technique='runtime monitoring: per-position oracle against get_mut (value identity and address), pairwise address-distinctness monitor, write-visibility monitor, panic oracle for equal present keys, on a bounded-exhaustive (state x tuple) space; Miri Stacked Borrows on the simultaneous use of the returned &mut references',
+     level_text='Exploration with an exhaustive sub-space: every key tuple of length 0..=4 (and sampled tuples of length 5 and 8) is requested on every slot layout; each position must equal what get_mut returns (object identity and address), returned addresses must be pairwise distinct and inside the map, writes through all references at once must be visible exactly at the requested keys, two equal present keys must panic and pairwise different keys must not. Miri checks the aliasing model while the references are used together.',
+     level_note='Equal ABSENT keys: either outcome is accepted (the property is silent). Universe of 4 classes is exhaustive; longer tuples sampled.',
+     design_ref='DESIGN.md section 3, C13')
+
+
+def _c18(tier):
+    a = '--fam track,copy,large' + (' --caps ' + ALLCAPS if tier == 'thorough' else '')
+    m = '--fam track --caps 0,1,2,3,4 --max-steps 48'
+    jobs = hist_jobs('C18', tier, a, a, engines=('map',), miri=(8, 200, 2000, {'map': m}), mirirel=(8, 200, 2000, {'map': m}),
+                     asan=(8, 3_000_000, {'map': '--fam raw,track --caps 0,1,2,3,4,8 --no-forget'}),
+                     vg=(8, 150_000, {'map': '--fam raw --caps 0,1,2,3,4,8 --no-forget'}))
+    jobs += [
+        J('C18', 'dbg/disjoint', 'dbg', 'eng_disjoint', '--random %d' % q(tier, 4000, 200000), 4, 1, exh=True, covp='dj/'),
+        J('C18', 'rel/disjoint', 'rel', 'eng_disjoint', '--random %d' % q(tier, 8000, 1000000), 4, 1, exh=True, covp='dj/'),
+        J('C18', 'miri/disjoint', 'miri', 'eng_disjoint', '--tiny --maxj %d' % q(tier, 2, 3), 8, 1, light=True, timeout=q(tier, 1500, 7200), covp='dj/'),
+        J('C18', 'mirirel/disjoint', 'mirirel', 'eng_disjoint', '--tiny --maxj %d' % q(tier, 2, 3), 8, 1, light=True, timeout=q(tier, 1500, 7200), covp='dj/'),
+    ]
+    return jobs
+
+
+plan('C18', jobs=_c18,
+     rule=HIST_RULE + ' In these histories plain insert is replaced by insert_unchecked whenever the documented precondition holds (map not full, or key present); when it does not hold the call is skipped, never made. Second engine: get_disjoint_unchecked_mut on ALL pairwise-different key tuples of length 0..=4 over 5 keys on all slot layouts over a 4-class universe (N in {0,1,2,3,4,8}), compared position by position with get_mut.',
+     required=['map/insert_unchecked:hit-first', 'map/insert_unchecked:hit-last', 'map/insert_unchecked:miss:partial', 'map/insert_unchecked:hit-middle:full',
+               'dj/get_disjoint_unchecked_mut:J=2', 'dj/get_disjoint_unchecked_mut:J=4'],
+     exhaustive_subspace='get_disjoint_unchecked_mut: all slot layouts over a 4-class universe x all pairwise-different key tuples of length 0..=4',
+     assumptions=NATIVE_ASSUME + SAN_ASSUME + ['the harness calls the unsafe functions only inside their documented precondition; outside it any behaviour is the caller\'s fault'],
+     title='unsafe fast paths inside their contract',
+     technique='runtime monitoring: reference-model + ledger + canary monitors on histories in which insert is replaced by insert_unchecked inside its contract (debug, release, Miri with and without debug assertions); per-position oracle for get_disjoint_unchecked_mut on the exhaustive distinct-tuple space',
+     level_text='Exploration: (1) random Map histories where every insert whose precondition holds is made through insert_unchecked; return value, contents, stored-key identity, ownership (ledger), canaries and well-formedness are checked after every step against the same model that decides insert; debug, release, Miri (dev profile and the debug-assertions-off profile). (2) get_disjoint_unchecked_mut on every pairwise-different key tuple: positions, addresses and write visibility must be those of get_mut / get_disjoint_mut.',
+     level_note='Nothing is claimed outside the documented preconditions. Finite sample of histories.',
+     design_ref='DESIGN.md section 3, C18')
+
+
 def claimed():
     return sorted(PLANS)
 
